@@ -96,11 +96,16 @@ def random_program(rnd: random.Random, nstmt: int) -> Tuple[List[Dict[str, Any]]
     ptr = dict(hi)
     defined_in_bss: List[str] = []
     pending_label = False
+    force_near = False
     for i in range(nstmt):
+        if force_near and prog and prog[-1]["k"] != "org":
+            force_near = False
         want_label = bool(defs_at and i == defs_at[0] and to_define)
         if want_label:
             defs_at.pop(0)
         r = rnd.random()
+        if force_near and sec == "code":
+            r = 0.99
         directive = r < 0.17
         if want_label and (not directive or label_before_directive):
             lab = to_define.pop()
@@ -123,9 +128,10 @@ def random_program(rnd: random.Random, nstmt: int) -> Tuple[List[Dict[str, Any]]
                 top = max(hi[sec], ptr[sec])
                 v = top + rnd.choice([1, 0x10, 0x100, 0x1000])
                 if sec == "code" and rnd.random() < 0.4:
-                    v = ((top >> 16) + 1) * 0x10000 - rnd.choice([2, 5, 0x10, 0x40])      # just below the next page boundary
+                    v = ((top >> 16) + 1) * 0x10000 - rnd.choice([1, 2, 3, 5, 0x10, 0x40])      # just below the next page boundary
                     if v <= top:
                         v = top + 3
+                    force_near = rnd.random() < 0.6      # ... and a page-local jump / call right there (its last bytes on the next page)
                 prog.append({"k": "org", "val": v, "olab": ""})
                 lines.append(f".ORG 0x{v:05X}")
                 ptr[sec] = v
@@ -145,6 +151,8 @@ def random_program(rnd: random.Random, nstmt: int) -> Tuple[List[Dict[str, Any]]
             ptr[sec] += n
         else:
             tmpl, near, size = rnd.choice(INSTR_FORMS)
+            if force_near:
+                tmpl, near, size = rnd.choice([f for f in INSTR_FORMS if f[1]])
             size = form_size(tmpl, size)
             lab = rnd.choice(labels) if "{L}" in tmpl else ""
             prog.append({"k": "instr", "size": size, "near": bool(near and lab), "ref": lab})
